@@ -301,7 +301,8 @@ def check_case(case, enforce_all=False):
         if len(used) != k:
             skipped = "a-parameter-has-no-term"
     elif v in ("sympy_poly", "sympy_analytic"):
-        syms = sympy.symbols("x_0:%d" % k, real=True)
+        # names in reverse alphabetical order: the parameter order is what `symbols=` says, not the sorted names
+        syms = [sympy.Symbol("%s_par" % "zyxwv"[j], real=True) for j in range(k)]
         symbols_b = syms
         if v == "sympy_poly":
             H = sympy.zeros(N)
